@@ -59,6 +59,13 @@ func EndsWithIfOnly(b *Block) bool {
 // guardDanglingElse keeps a block that is followed by else/elif from ending
 // with an if-only (known finding D15: the inner if captures the outer else).
 func (g *Gen) guardDanglingElse(b *Block) {
+	if e := b.Final; e != nil && e.K == "if" && e.Else == nil && len(e.Elifs) == 0 && len(e.Then.Stmts) == 0 &&
+		CanInline(e.Args[0]) && CanInline(e.Then.Final) && e.Then.Final.K != "if" && g.chance(2, 3, "danglingOneLine") {
+		// written on one line the inner if is complete at its line end: the else below belongs to the outer if
+		e.OneLine = true
+		g.label("one-line if without else ends a block that is followed by else")
+		return
+	}
 	if EndsWithIfOnly(b) {
 		g.Steered["then-block followed by else does not end with an if-only (known finding D15)"]++
 		b.Stmts = append(b.Stmts, ExprStmt(b.Final))
@@ -131,6 +138,7 @@ func (g *Gen) matchUnion(sc *scope, t *Type, depth int) ([]*Stmt, *Expr) {
 		c := u.Cases[ci]
 		arm := &Arm{Case: c.Name}
 		inner := sc.child()
+		inner.params = true
 		var bv *varInfo
 		if c.Payload != nil {
 			name := g.fresh("m")
@@ -197,6 +205,7 @@ func (g *Gen) matchString(sc *scope, t *Type, depth int) ([]*Stmt, *Expr) {
 		e.Arms = append(e.Arms, &Arm{Lit: lit, Body: g.armBlock(sc.child(), t, depth-1)})
 	}
 	inner := sc.child()
+	inner.params = true
 	name := g.fresh("o")
 	bv := inner.add(name, TString)
 	body := g.armBlock(inner, t, depth-1)
@@ -236,6 +245,15 @@ func (g *Gen) unitStmts(sc *scope, depth int) []*Stmt {
 			g.label("if/else statement")
 			e := &Expr{K: "if", T: TUnit, Args: []*Expr{g.expr(sc, TBool, depth-1)}}
 			e.Then = g.unitBlock(sc, depth-1)
+			if g.chance(1, 4, "thenEndsWithOneLineIf") {
+				// the then-block ends with a complete one-line if: the else below is the outer one's
+				c, body := g.expr(sc, TBool, 0), g.unitExpr(sc, 0)
+				if CanInline(c) && CanInline(body) && body.K != "if" {
+					e.Then.Stmts = append(e.Then.Stmts, ExprStmt(e.Then.Final))
+					e.Then.Final = &Expr{K: "if", T: TUnit, Args: []*Expr{c}, Then: Blk(body)}
+					g.guardLeadingInterp(e.Then)
+				}
+			}
 			g.guardDanglingElse(e.Then)
 			e.Else = g.unitBlock(sc, depth-1)
 			return []*Stmt{ExprStmt(e)}
@@ -284,7 +302,7 @@ func (g *Gen) block(sc *scope, t *Type, depth int) *Block {
 			}
 			g.inRhs--
 			b.Stmts = append(b.Stmts, pre...)
-			name := g.fresh("v")
+			name := g.letName(inner, vt, "v")
 			b.Stmts = append(b.Stmts, Let(name, val))
 			v := inner.add(name, vt)
 			if val.K == "slice" {
@@ -343,8 +361,9 @@ func (g *Gen) block(sc *scope, t *Type, depth int) *Block {
 			b.Stmts = append(b.Stmts, g.unitStmts(inner, depth-1)...)
 		default:
 			vt := []*Type{TInt, TString, TBool}[g.intn(3, "letBase")]
-			name := g.fresh("v")
-			b.Stmts = append(b.Stmts, Let(name, g.expr(inner, vt, depth-1)))
+			val := g.expr(inner, vt, depth-1)
+			name := g.letName(inner, vt, "v")
+			b.Stmts = append(b.Stmts, Let(name, val))
 			lets = append(lets, inner.add(name, vt))
 		}
 	}
@@ -362,6 +381,45 @@ func (g *Gen) block(sc *scope, t *Type, depth int) *Block {
 	g.fixDestructuring(b)
 	g.guardLeadingInterp(b)
 	return b
+}
+
+// letName picks the name of a new let-bound variable of type vt in the block whose scope is inner:
+// usually fresh, sometimes the name of a variable of an enclosing block (shadowing). A name of the block
+// itself, or of the parameter / case-variable scope the block is the body of, is never reused: Go has
+// one scope for parameters and body, and Folang documents no rebinding within one block.
+func (g *Gen) letName(inner *scope, vt *Type, prefix string) string {
+	if g.P.NoShadow || !g.chance(1, 4, "shadowLet") {
+		return g.fresh(prefix)
+	}
+	forbidden := map[string]bool{}
+	for _, v := range inner.vars {
+		forbidden[v.name] = true
+	}
+	if p := inner.parent; p != nil && p.params {
+		for _, v := range p.vars {
+			forbidden[v.name] = true
+		}
+	}
+	var same, other []*varInfo
+	for _, v := range inner.all() {
+		if forbidden[v.name] || v.isFunc || v.t.K == "func" {
+			continue
+		}
+		if v.t.Equal(vt) {
+			same = append(same, v)
+		} else {
+			other = append(other, v)
+		}
+	}
+	switch {
+	case len(same) > 0 && (len(other) == 0 || g.chance(3, 4, "shadowSameType")):
+		g.label("let shadows an outer variable of the same type")
+		return same[g.intn(len(same), "shadowWhichSame")].name
+	case len(other) > 0:
+		g.label("let shadows an outer variable of another type")
+		return other[g.intn(len(other), "shadowWhichOther")].name
+	}
+	return g.fresh(prefix)
 }
 
 // leftmost returns the leaf the printed text of e starts with.
@@ -447,6 +505,7 @@ func (g *Gen) fixDestructuring(b *Block) {
 func (g *Gen) localFunc(sc *scope, depth int) *FuncDecl {
 	f := &FuncDecl{Name: g.fresh("loc")}
 	inner := sc.child()
+	inner.params = true
 	np := 1 + g.intn(2, "localParams")
 	for i := 0; i < np; i++ {
 		pt := []*Type{TInt, TString, g.pickDataType("localParamType")}[g.intn(3, "localParamKind")]
@@ -504,6 +563,7 @@ func (g *Gen) genFunc(depth int) *TopItem {
 		sc.add(gv.name, gv.t)
 	}
 	sc = sc.child()
+	sc.params = true
 	np := g.intn(4, "nparams")
 	for i := 0; i < np; i++ {
 		pt := g.pickDataType("paramType")
